@@ -23,6 +23,7 @@ type lockSpec struct {
 	xrefOnly map[string]bool // sub-rules reported as cross-reference only: "L1","L2","L3","L4"
 	// mutating method names on objects reached through guarded fields
 	noL4 bool
+	l5   bool // also check dereferences of pointers obtained from guarded containers
 }
 
 const (
@@ -437,6 +438,118 @@ func (c *Ctx) ruleLocks(sp lockSpec) {
 				rep("L3", key, call.Pos(), true, "lock not held when calling acquiring method "+callee.Name())
 			}
 		}
+		if sp.l5 {
+			derived := map[ssa.Value]bool{}
+			for _, a := range p.acc {
+				fa := a.in.(*ssa.FieldAddr)
+				for _, r := range *fa.Referrers() {
+					if u, ok := r.(*ssa.UnOp); ok && u.Op == token.MUL {
+						derived[u] = true
+					}
+				}
+				derived[fa] = true
+			}
+			hasPtr := func(t types.Type) bool {
+				switch t.Underlying().(type) {
+				case *types.Pointer, *types.Interface, *types.Tuple, *types.Map, *types.Slice:
+					return true
+				}
+				return false
+			}
+			for changed := true; changed; {
+				changed = false
+				eachInstr(f, func(_ *ssa.BasicBlock, _ int, ins ssa.Instruction) {
+					v, ok := ins.(ssa.Value)
+					if !ok || derived[v] || !hasPtr(v.Type()) {
+						return
+					}
+					from := false
+					switch x := ins.(type) {
+					case *ssa.Lookup:
+						from = derived[x.X]
+					case *ssa.Extract:
+						from = derived[x.Tuple]
+					case *ssa.TypeAssert:
+						from = derived[x.X]
+					case *ssa.Phi:
+						for _, e := range x.Edges {
+							from = from || derived[e]
+						}
+					case *ssa.UnOp:
+						if x.Op == token.MUL {
+							switch a := x.X.(type) {
+							case *ssa.FieldAddr:
+								from = derived[a.X]
+							case *ssa.IndexAddr:
+								from = derived[a.X]
+							}
+						}
+					case *ssa.Call:
+						args := callArgs(&x.Call)
+						if len(args) > 0 && (derived[args[0]]) {
+							from = true
+						}
+						if heapMutators[calleeName(&x.Call)] || calleeName(&x.Call) == "container/heap.Pop" {
+							from = true
+						}
+					case *ssa.ChangeType:
+						from = derived[x.X]
+					case *ssa.Next:
+						from = derived[x.Iter]
+					case *ssa.Range:
+						from = derived[x.X]
+					}
+					if from {
+						derived[v] = true
+						changed = true
+					}
+				})
+			}
+			dord := 0
+			eachInstr(f, func(_ *ssa.BasicBlock, _ int, ins ssa.Instruction) {
+				var addr ssa.Value
+				kind := ""
+				switch x := ins.(type) {
+				case *ssa.UnOp:
+					if x.Op == token.MUL {
+						addr, kind = x.X, "read"
+					}
+				case *ssa.Store:
+					addr, kind = x.Addr, "write"
+				}
+				if addr == nil {
+					return
+				}
+				var base ssa.Value
+				switch a := addr.(type) {
+				case *ssa.FieldAddr:
+					base = a.X
+					if isS(a.X.Type()) {
+						return // direct field access of S: handled by L1/L2
+					}
+				case *ssa.IndexAddr:
+					base = a.X
+				}
+				if base == nil || !derived[base] {
+					return
+				}
+				if _, isPtr := base.Type().Underlying().(*types.Pointer); !isPtr {
+					if _, isSl := base.Type().Underlying().(*types.Slice); !isSl {
+						return
+					}
+				}
+				dord++
+				key := fmt.Sprintf("%s:deref#%d", fname, dord)
+				s := p.stateAt[ins]
+				if s == lkNone && (info.exported || info.needs == 0) {
+					rep("L5", key, ins.Pos(), false, fmt.Sprintf("%s %ss through a pointer obtained from guarded state of %s after/without the lock: the element can be modified concurrently", shortFn(f), kind, sp.typ))
+				} else if s == lkR && kind == "write" {
+					rep("L5", key, ins.Pos(), false, fmt.Sprintf("%s writes through a pointer obtained from guarded state of %s under the read lock only", shortFn(f), sp.typ))
+				} else {
+					rep("L5", key, ins.Pos(), true, "element of guarded container accessed under "+lvl(s)+" lock")
+				}
+			})
+		}
 		// L4: one critical section per function
 		if !sp.noL4 && (len(p.lockIns) > 0 || info.accesses > 0) {
 			var entries []ssa.Instruction
@@ -494,11 +607,25 @@ func lvl(s int) string {
 }
 
 func shortFn(f *ssa.Function) string {
-	s := relName(f.String())
-	if i := strings.LastIndex(s, "/"); i >= 0 {
-		s = s[i+1:]
+	if f == nil {
+		return "?"
 	}
-	return s
+	if f.Parent() != nil {
+		return shortFn(f.Parent()) + "$" + strings.TrimPrefix(f.Name(), f.Parent().Name()+"$")
+	}
+	if r := f.Signature.Recv(); r != nil {
+		t := r.Type()
+		star := ""
+		if p, ok := t.(*types.Pointer); ok {
+			t, star = p.Elem(), "*"
+		}
+		n := "?"
+		if nt, ok := types.Unalias(t).(*types.Named); ok {
+			n = nt.Obj().Name()
+		}
+		return "(" + star + n + ")." + f.Name()
+	}
+	return f.Name()
 }
 
 func describeInstr(in ssa.Instruction) string {
